@@ -98,6 +98,7 @@ def in_threads(progs, shared, profiling, concurrent, bridge=False):
 
 def main():
     req = json.load(sys.stdin)
+    realize.THREAD_YIELD = True
     sys.setswitchinterval(1e-6)
     res = []
     for job in req["jobs"]:
@@ -119,7 +120,9 @@ def main():
         finally:
             for k, v in saved.items():
                 setattr(_debug.options, k, v)
-        res.append({"id": job["id"], "solo": solo, "conc": conc})
+        # the main thread ran no computation of its own: nothing of the workers' profiling may have landed in its buffer
+        foreign = [str(x.get("name")).split("(")[0][:60] for x in profiler.flush()]
+        res.append({"id": job["id"], "solo": solo, "conc": conc, "main_prof": foreign})
         if HUNG[0]:
             break        # a runaway thread is still alive: report what we have and leave (remaining jobs are dropped)
     json.dump(res, real_out, separators=(",", ":"))
